@@ -202,7 +202,7 @@ def annexg_clog(re, im):
     return out
 
 
-def matches_special(got, want, rel=4 * 2.0 ** -52):
+def matches_special(got, want, rel=8 * 2.0 ** -52):
     """component-wise comparison against an Annex G entry (signed zeros and infinities exactly,
     finite non-zero values to `rel`)."""
     if want == 'nan':
